@@ -242,9 +242,13 @@ def rule_R3(ctx, prj, structural_reader=True):
             todo.extend(prj.callgraph.callers_of(cq))     # a newly extracted helper: judge its callers instead
         else:
             callers.add(cq)
+    scan_side = prj.callgraph.reachable(["codelimit.commands.scan:scan_command"]) if not structural_reader else set()
     for cq in sorted(callers):
         if cq in WHO_FROM_JSON:
             ctx.ok("R3", prj.funcs[cq].site(), f"from_json caller {cq.split(':')[1]}: {WHO_FROM_JSON[cq]}")
+        elif cq in scan_side:
+            # a reader on the scan command's own path: what the scan does with documents of other versions was evaluated (R5)
+            ctx.ok("R3", prj.funcs[cq].site(), f"from_json caller {cq.split(':')[1]}: part of the scan command, whose use of the cache is evaluated (R5)")
         else:
             ctx.viol("R3", f"from_json<-{cq.split(':')[1]}", prj.funcs[cq].site(),
                      f"{cq} parses reports outside the version-checked readers (who-may-call table)")
@@ -294,11 +298,12 @@ def rule_R5_evaluated(ctx, prj) -> bool:
                    "root-relative path whose checksum equals the file's (loc and measurements taken over, the file not read), "
                    "analyses every other file again (changed checksum; same bytes recorded under another path), drops entries of "
                    "files that are gone or excluded, returns a new codebase and leaves the cached one untouched; "
-                   "_read_cached_report hands out a report only for a document of the running version (another version, no "
-                   "version key, version null, not JSON, absent file: none); read_report returns the report of the running "
+                   "scan_command (interpreted end to end) takes entries from the cache only for a document of the running version "
+                   "(another version, a patch release, trailing blank, no version key, version null, not JSON, absent file: every "
+                   "source file is read again); read_report returns the report of the running "
                    "version and leaves through typer.Exit otherwise", floor=10)
-    sf = prj.func(f"{SC}:_scan_file")
-    rc = prj.func("codelimit.commands.scan:_read_cached_report")
+    sf = prj.maybe_func(f"{SC}:_scan_file") or prj.func(f"{SC}:scan_path")
+    rc = prj.func("codelimit.commands.scan:scan_command")
     rr = prj.func("codelimit.utils:read_report")
     try:
         out, read, (before, after), same = CE.cached_scan(prj)
@@ -329,14 +334,29 @@ def rule_R5_evaluated(ctx, prj) -> bool:
             ctx.ok("R5", sf.site(), "the result is a new codebase; the cached one is unchanged")
         docs = CE.cache_documents(prj)
         docs["absent file"] = None
+        from .. import scan_eval as SE
+        first = SE.scan(prj, SE.State())
         for case, text in docs.items():
-            got = CE.read_cached(prj, text)
-            want = "report" if case == "running version" else "none"
-            if got == want:
-                ctx.ok("R5", rc.site(), f"_read_cached_report, {case}: {got}")
+            # observed on the command itself: does a scan with this document in the cache read the source files again?
+            if text is not None and case != "not JSON":
+                import json as _json
+                d0 = _json.loads(first.state.texts[SE.DOC])
+                d1 = _json.loads(text)
+                for k in ("version",):
+                    if k in d1:
+                        d0[k] = d1[k]
+                    else:
+                        d0.pop(k, None)
+                text_ = _json.dumps(d0)
             else:
-                ctx.viol("R5", f"_read_cached_report/{case.replace(' ', '-')}", rc.site(), f"for a cache document with {case} _read_cached_report gives {got}; required {want}"
-                         + (": results recorded by another version of the tool (or of unknown origin) are reused" if got == "report" else ""))
+                text_ = text
+            got = SE.cache_use(prj, text_, first)
+            want = "used" if case == "running version" else "ignored"
+            if got == want:
+                ctx.ok("R5", rc.site(), f"scan with a cache document of {case}: cache {got}")
+            else:
+                ctx.viol("R5", f"_read_cached_report/{case.replace(' ', '-')}", rc.site(), f"with a cache document of {case} the scan has the cache {got}; required {want}"
+                         + (": results recorded by another version of the tool (or of unknown origin) are reused" if got in ("used", "partly used") else ""))
             if case == "not JSON":
                 continue
             got = CE.read_report(prj, text)
